@@ -55,7 +55,7 @@ PLAN['C01'] = {
     'technique': 'contract-based deductive verification (Verus) of alloc.rs/lru.rs/reg_tape.rs and of the VM interpreter loops of vm/mod.rs on mechanically extracted real text; bounded native contract runner for SsaTape::new and as a second opinion on the interpreters',
     'level_text': 'Unbounded proof (all programs, all N in 3..=255, all initial register contents) that register allocation preserves tape semantics, function by function against contracts; unbounded proof that the single-point and many-point VM interpreters execute every register tape exactly as the reference step function says (all 54 RegOp arms each, the many-point one column by column against the single-point semantics). The graph flattening (SsaTape::new: hash maps, closures) is outside verifier reach and is covered by a labelled bounded stand-in only.',
     'level_note': 'Trusted: Verus+Z3, the extractor rewrite rules, assume_specification for mem::take and slice::fill, assume(slot_count < u32::MAX); the stubs and axioms of unit vm (f32 library methods and FloatExt functions as uninterpreted functions, f32 arithmetic total: ax_float_total, VarMap opaque, check_bulk_arguments stub, copy_prefix model of range copy_from_slice, resize_with length spec). Assumed between units: tape_ok of the tapes RegTape::new produces (register/memory ranges are part of the allocator invariant proved in unit alloc; output/input indices and the choice count come from SsaTape::new: bounded). Bounded only: SsaTape::new contract, N in {1,2}; interp_point/interp_bulk stay as an independent native cross-check of the reference meanings.',
-    'legs': [leg_verus('alloc'), leg_verus('vm'), leg_bounded('rev_range'), leg_bounded('interp_point'), leg_bounded('interp_bulk'), leg_bounded('flatten'),
+    'legs': [leg_verus('alloc'), leg_verus('vm'), leg_verus('context'), leg_bounded('rev_range'), leg_bounded('interp_point'), leg_bounded('interp_bulk'), leg_bounded('flatten'),
              leg_bounded('alloc_cex'), leg_bounded('alloc_small_n')],
     'cex': ['alloc_cex', 'flatten', 'interp_point'],
     'explanation': (
@@ -174,7 +174,7 @@ PLAN['C03'] = {
     'technique': 'Kani full-domain harnesses for local interval enclosure of comparison/select operations; bounded native contract runner (interval interpreter vs reference point semantics) for arithmetic and transcendental operations',
     'level_text': 'Proved for all intervals and all member points (Kani, bit-precise, loop-free): min, max, and, or, not, compare, abs, neg enclose the point result, with the NaN-interval convention. Proved in Verus on the real text under the stated float axioms (monotone correctly-rounded + - *, NaN propagation, total order): Add, Sub, Mul<f32>, Neg are total on all valid intervals and enclose exactly (0 ulp). The interpreter dispatch is proved (unit vm: VmIntervalEval::eval applies, for every RegOp variant, the Interval method of that name to the right operands in the right order and writes the right slot). The remaining arithmetic and transcendental operations and the JIT are bounded stand-ins on a stated grid.',
     'level_note': 'Trusted: Kani/CBMC, Verus+Z3 with the float axioms of unit interval. Bounded only: mul, div, square, trig, atan2, rem_euclid, mix, rand; JIT; the composition of per-operation enclosure over a whole tape is mechanised for an abstract relation (unit vm, lemma_enc_run); that each real operation respects the real relation is established per operation by the other legs (known findings K1, K4 are where it does not). Out of scope: wgsl shader.',
-    'legs': [leg_kani('leaf'), leg_verus('interval'), leg_verus('vm'), leg_bounded('interp_interval'), leg_bounded('jit_interval')],
+    'legs': [leg_kani('leaf'), leg_verus('interval'), leg_verus('vm'), leg_verus('shape'), leg_bounded('interp_interval'), leg_bounded('jit_interval'), leg_bounded('shape_transform')],
     'cex': ['interp_interval'],
     'explanation': 'The local obligation per opcode is exactly the observation the property names: a in A, b in B => op(a,b) in OP(A,B) unless NaN.',
     'assumptions': ['monotonicity of correctly rounded f32 arithmetic and libm functions is exercised on a grid only'],
@@ -186,7 +186,7 @@ PLAN['C05'] = {
     'technique': 'contract-based deductive verification (Verus) of the dual arithmetic of types/grad.rs on its real text (value lane == point operation, each derivative lane == the textbook rule applied to that lane) and of the VM gradient interpreter dispatch (unit vm); Kani full-domain harnesses on the select operations; bounded native contract runner for numeric agreement with an f64 dual evaluation and for the JIT',
     'level_text': 'Proved (Verus, real text of grad.rs, 28 operations): for abs, sqrt, sin, cos, tan, asin, acos, atan, exp, ln, recip, floor, ceil, round, neg, add, sub, mul, scale, div, atan2, rem_euclid, min, max, and, or, not, From<f32> the value lane is exactly the f32 point operation on the operand values, and each of dx, dy, dz is the differentiation rule of that operation (written from calculus in units/grad.py, the same rule function for the three lanes) applied to that lane\'s seeds in f32, for arbitrary seeds; the operations cannot panic.  No rounding-error bound and no statement about the true real derivative is proved (that is the bounded contract grad_rules against an f64 dual evaluation).  Partial: for min, max, abs, neg the gradient value equals the point value for arbitrary seed lanes, lanes are treated uniformly and the derivative lanes are those of the selected operand (all f32 inputs, Kani). Proved (Verus, unit vm): VmGradSliceEval::eval applies, for every RegOp variant and every sample, the Grad operation of that name to the right operands in the right order (Recip as 1/x, Square as x*x, MulRegImm as scaling), so the chain rule through a tape is exactly the composition of the per-operation rules. Arithmetic/transcendental derivative rules (bounded contract grad_rules: every RegOp variant against the textbook rule on a grid, arbitrary seeds) and the JIT (jit_grad) are bounded stand-ins, not discharged obligations.',
     'level_note': 'Level other: the property is about real derivatives within a tolerance; what is proved is the exact f32 form of each rule, lane by lane, and the interpreter plumbing. Trusted: Verus+Z3 with ax_float_total (f32 ops are total) and ax_comm (+ and * commute), uninterpreted libm functions, Kani/CBMC. Not covered by proof: rounding error, compare/rand/mix, the symbolic derivative Context::deriv (bounded: deriv_rules compares it with the gradient evaluator on op(g, h) with non-trivial inner functions; known finding K6: modulo), the JIT gradient evaluator (bounded: jit_grad).',
-    'legs': [leg_kani('leaf'), leg_verus('grad'), leg_verus('vm'), leg_bounded('grad_rules'), leg_bounded('jit_grad'), leg_bounded('deriv_rules')],
+    'legs': [leg_kani('leaf'), leg_verus('grad'), leg_verus('vm'), leg_verus('shape'), leg_bounded('grad_rules'), leg_bounded('jit_grad'), leg_bounded('deriv_rules'), leg_bounded('shape_transform')],
     'explanation': 'Only comparison/select bodies are tractable for CBMC; the rest is stated as not covered.',
     'assumptions': ['no error bound on derivative arithmetic is proved', 'the rule table RULES of units/grad.py is the specification of d/dx for each opcode (written from calculus)', 'Verus gives structs with f32 fields no field range invariant; the proved lemma_fields re-introduces the typing facts (see units/grad.py)'],
 }
@@ -261,9 +261,9 @@ del NOT_APPLICABLE['C12']
 PLAN['C14'] = {
     'level': 'other',
     'technique': 'contract-based deductive verification (Verus) of the Shape-level tracing evaluator wrapper of shape/mod.rs on its real text, generic over the wrapped evaluator, the coordinate type and the variable-value type; bounded native contract runner over permutations of variables, supply orders and transforms on both back ends',
-    'level_text': 'Partial (binding clause; the tracing wrappers fully, the many-point/gradient wrapper for the axes and for totality). Proved for every evaluator E: TracingEvaluator, every tape whose variable map is well-formed, all coordinates, every optional transform and every set of supplied variable values: ShapeTracingEval::eval_raw calls the wrapped evaluator on an argument vector in which, for every entry (var, index) of the tape\'s variable map, slot index holds the value of var - the (converted, then transformed) x, y or z for the axes, the converted supplied value for Var::V(i) - independently of the order in which the map enumerates its entries and of anything else in the supplied set (extra variables are never read); the result is the wrapped evaluator\'s first output on that vector; a variable of the map that is not supplied yields the MissingVar error and nothing else is an error (the inner argument error is proved unreachable); the four public wrappers eval / eval_with_transform / eval_with_vars / eval_with_transform_and_vars are eval_raw with the corresponding arguments.  That simplification keeps the variable numbering is proved under C04 (simplify ensures r.vars == self.vars).  Also proved (generic over E: BulkEvaluator and over the closure that fills the rows of free variables): ShapeBulkEval::eval_raw / eval / eval_with_transform return Err for x, y, z of different lengths, otherwise shape the argument matrix as max(#variables, 1) rows of exactly n samples whatever the evaluator object held before, call the closure exactly once per free variable of the map with that variable\'s own row and index, write the (transformed) positions into the rows of the axes at the map\'s indices for every sample, return n samples which are the wrapped evaluator\'s first output row on that matrix, and cannot panic (both `unreachable!()` arms and every index are obligations).  Also proved: <Interval as Transformable>::transform and <Grad as Transformable>::transform return (h0/h3, h1/h3, h2/h3) with h_i = x*M[i][0] + y*M[i][1] + z*M[i][2] + from(M[i][3]) in the type\'s own arithmetic, i.e. the projective image M·(x,y,z,1) divided by its homogeneous coordinate, for every matrix (no affine shortcut).  NOT covered by proof: what the row-filling closures var_value / var_array write (closures returned as `impl Fn`; bounded contract shape_bind and total part (d)), VarMap index assignment itself (HashMap: stub whose well-formedness is assumed), Transformable for f32 (nalgebra transform_point; bounded contract shape_transform compares all four evaluator kinds on both back ends with an f64 reference of the projective map, gradients against central differences), the Jacobian pass of the solver Solver::get_jacobian and Solver::new / solve (enumerate over iter_mut, nalgebra DMatrix/SVD, iterator chains; bounded contract solver_bind: triangular linear systems whose fixed and free parameters sit in different slots of different equations), the GPU/mesher call sites.  Proved in unit solver (real text of fidget-solver/src/lib.rs, std HashMap through the HashMap model of vstd): Solver::get_err calls the point evaluator, for every equation, on an argument vector that binds by identity every parameter occurring in the variable map of that equation (the fixed value, or cur[gi] - delta[gi] with gi = grad_index[v]), although one array is shared by all equations and each tape numbers its variables differently; the result is the sum of the squared first outputs; neither unwrap nor any index can panic.',
+    'level_text': 'Partial (binding clause; the tracing wrappers fully, the many-point/gradient wrapper for the axes and for totality). Proved for every evaluator E: TracingEvaluator, every tape whose variable map is well-formed, all coordinates, every optional transform and every set of supplied variable values: ShapeTracingEval::eval_raw calls the wrapped evaluator on an argument vector in which, for every entry (var, index) of the tape\'s variable map, slot index holds the value of var - the (converted, then transformed) x, y or z for the axes, the converted supplied value for Var::V(i) - independently of the order in which the map enumerates its entries and of anything else in the supplied set (extra variables are never read); the result is the wrapped evaluator\'s first output on that vector; a variable of the map that is not supplied yields the MissingVar error and nothing else is an error (the inner argument error is proved unreachable); the four public wrappers eval / eval_with_transform / eval_with_vars / eval_with_transform_and_vars are eval_raw with the corresponding arguments.  That simplification keeps the variable numbering is proved under C04 (simplify ensures r.vars == self.vars).  Also proved (generic over E: BulkEvaluator and over the closure that fills the rows of free variables): ShapeBulkEval::eval_raw / eval / eval_with_transform return Err for x, y, z of different lengths, otherwise shape the argument matrix as max(#variables, 1) rows of exactly n samples whatever the evaluator object held before, call the closure exactly once per free variable of the map with that variable\'s own row and index, write the (transformed) positions into the rows of the axes at the map\'s indices for every sample, return n samples which are the wrapped evaluator\'s first output row on that matrix, and cannot panic (both `unreachable!()` arms and every index are obligations).  Also proved: <Interval as Transformable>::transform and <Grad as Transformable>::transform return (h0/h3, h1/h3, h2/h3) with h_i = x*M[i][0] + y*M[i][1] + z*M[i][2] + from(M[i][3]) in the type\'s own arithmetic, i.e. the projective image M·(x,y,z,1) divided by its homogeneous coordinate, for every matrix (no affine shortcut).  NOT covered by proof: what the row-filling closures var_value / var_array write (closures returned as `impl Fn`; bounded contract shape_bind and total part (d)), that `VarMap::iter` enumerates exactly the assigned indices (chained iterators: the opaque stand-in of the other units; the index assignment itself is proved in unit varmap: VarMap::insert keeps every variable at most once with pairwise distinct indices below len, gives a new variable the next index and never changes an assigned one; get returns the assigned index), Transformable for f32 (nalgebra transform_point; bounded contract shape_transform compares all four evaluator kinds on both back ends with an f64 reference of the projective map, gradients against central differences), the Jacobian pass of the solver Solver::get_jacobian and Solver::new / solve (enumerate over iter_mut, nalgebra DMatrix/SVD, iterator chains; bounded contract solver_bind: triangular linear systems whose fixed and free parameters sit in different slots of different equations), the GPU/mesher call sites.  Proved in unit solver (real text of fidget-solver/src/lib.rs, std HashMap through the HashMap model of vstd): Solver::get_err calls the point evaluator, for every equation, on an argument vector that binds by identity every parameter occurring in the variable map of that equation (the fixed value, or cur[gi] - delta[gi] with gi = grad_index[v]), although one array is shared by all equations and each tape numbers its variables differently; the result is the sum of the squared first outputs; neither unwrap nor any index can panic.',
     'level_note': 'Level other: the binding mechanism of the tracing wrappers is proved generically; the other evaluator kinds and the construction of the variable map are outside the technique (closures over &mut slices, HashMap entry API, nalgebra) and are only exercised by bounded contracts. Trusted: Verus+Z3; stubs VarMap (entries/wf/len/iter_vec), ShapeVars (finite map), Matrix4 (opaque, entries m(i,j), row(i) as four entries), Interval/Grad operators +, /, * f32, From<f32> with uninterpreted meanings (under contract in units interval/grad); the trait contracts of TracingEvaluator::eval (satisfied by the VM evaluators: unit vm) and Transformable::transform; extractor rules R-iter, R-alias, R-derive-from, R-spec-in-trait, R-arraymap, R-intoiter, R-continue, R-hashindex, R-compound; unit solver additionally assumes obeys_key_model::<Var>() (the derived Hash/Eq of Var are consistent), the VarMap::get stub, trait Function reduced to two associated types, and as preconditions what Solver::new establishes (well-formed variable maps that fit the shared array, grad_index numbering the free parameters below cur.len()).',
-    'legs': [leg_verus('shape'), leg_verus('solver'), leg_bounded('shape_bind'), leg_bounded('shape_transform'), leg_bounded('solver_bind')],
+    'legs': [leg_verus('shape'), leg_verus('solver'), leg_verus('varmap'), leg_bounded('shape_bind'), leg_bounded('shape_transform'), leg_bounded('solver_bind')],
     'cex': ['shape_bind', 'shape_transform'],
     'explanation': 'bound(s, map, x, y, z, vars): s[index] == bind(var) for every entry of the map; the loop invariant carries it for the entries visited so far (distinct indices keep earlier slots intact) together with "no visited free variable is missing".',
     'assumptions': ['VarMap::wf (every variable once, indices distinct and below len): established by VarMap::insert (HashMap; not under contract; bounded contract flatten compares whole pipelines)',
